@@ -276,6 +276,8 @@ class LoopRig(srvkit.Rig):
         finally:
             svr_threads.time = real_time
             forget_types(registered)
+            if self.servertype == "thread":
+                self.real_acceptsel.close()      # SocketServer_Threadpool.close() never closes its accept selector (an epoll fd)
 
 
 def forget_types(classes):
@@ -287,6 +289,14 @@ def forget_types(classes):
         if c in (server.DaemonObject, type, object):
             continue
         serpent.unregister_class(c)
+        for only_exposed in (True, False):
+            server._reset_exposed_members(c, only_exposed)      # module-level cache keyed by the class
+        for attr in ("_pyroDaemon", "_pyroId"):
+            if attr in vars(c):
+                try:
+                    delattr(c, attr)
+                except (AttributeError, TypeError):
+                    pass
         for ser in (serializers.JsonSerializer, serializers.MsgpackSerializer):
             for name, val in vars(ser).items():
                 if name.endswith("__type_replacements") and isinstance(val, dict):
